@@ -21,6 +21,11 @@ CHECKS = {
          "For every choice program up to the bound and every box of a 100-box dyadic grid, traces from the interval evaluator (box) and the point evaluator (each sample point) of VM<255>, VM<3> and JIT are fed to simplify; every resulting child, and every child of a child over nested sub-boxes up to the nesting bound, is compared bit-for-bit with the original function on the traced domain under point, float-slice and grad-slice evaluators; simplification into other budgets (3, 4, 12) is included; simplify must never fail.",
          "Trusted: dyadic alphabets make interval decisions exact; child-vs-parent comparison under the same evaluator.",
          "DESIGN.md §4 C04"),
+ "C11": ("model_checking",
+         "bounded-exhaustive enumeration of programs x finite inputs on all evaluator kinds of both backends, crash journal for aborts/faults",
+         "Every opcode/operand form on all finite special-value points and finite-endpoint boxes, every composition op2(op1(..),..) / op2(p1(..),p2(..)) / op3(op2(p1,p2)) of overflow-or-invalid producers with all 30 opcodes (register and immediate forms) on 12^3 grids of points and boxes reaching +-f32::MAX, the Shape API with extreme and projective matrices, and malformed argument lists, are executed on VM and JIT point / interval / float-slice / grad-slice evaluators; any panic, abort, fault, malformed returned interval or non-error on malformed arguments is a violation, attributed to the operation that creates it.",
+         "Trusted: the crash journal (process-level attribution) and the alphabets; composition depth 2 (quick) / 3 (thorough); x86_64 JIT only.",
+         "DESIGN.md §4 C11"),
  "C15": ("model_checking",
          "bounded-exhaustive enumeration of programs x budgets; bytecode executed by a documentation-only interpreter and compared with the VM",
          "Every program of the C01 sets is serialised with Bytecode::new at budgets that force memory traffic and executed by an interpreter written only from the format documentation (opcode numbers by name from iter_ops); outputs must equal the VM's bit-for-bit and every structural promise (markers, word count, register/memory bounds, reserved register) is checked on every bytecode.",
